@@ -101,6 +101,9 @@ class Safe(Engine):
     name = 'safe'
     repo_deps = ('libarchive/archive_write_disk_posix.c', 'libarchive/archive_util.c')
     keep_prefix = 2
+    # leaks are not what C19 observes (C07 does); LSan's stop-the-world at the exit of every forked case
+    # dominates the run time under load
+    env = {'ASAN_OPTIONS': 'detect_leaks=0:abort_on_error=0:exitcode=99:allocator_may_return_null=1'}
 
     def __init__(self):
         self._verdict = {}
@@ -151,7 +154,7 @@ class Safe(Engine):
         return [f"setup old={b['old']} flags={b['flags']} fail={f} errno={errno}", b['hdr']] + b['calls'] + b['tail']
 
     def gen(self, rng, tier):
-        nbase = 70 if tier == 'quick' else 900
+        nbase = 70 if tier == 'quick' else 450
         bases = [self.base(rng) for _ in range(nbase)]
         # fixed border cases: same content old/new; size 0; all-zero sparse body across 3 fs blocks
         bases.append(dict(old='p512:7', flags='-', hdr='header size=512 mode=644', calls=['data p512:7'], tail=['finish', 'close', 'free']))
